@@ -964,6 +964,70 @@ struct Checker
     }
 
     //-----------------------------------------------------------------------//
+    // The infix STRING of a tree that has NOT been simplified yet: a surface (or any other
+    // node) exchanged for a constant, as CsgTree::exchange / the first half of
+    // replace_and_simplify leave it - constants then sit INSIDE joins.  build_infix_string is
+    // documented to print such trees; every node's string must still parse to the node's table.
+    void check_exchange_strings(CsgTree const& t, int nsurf, std::string const& cid)
+    {
+        size_t const N = t.size();
+        TT const mask = mask_of(nsurf);
+        for (size_t n = 2; n < N; ++n)
+            for (int cst = 0; cst < 2; ++cst)
+            {
+                CsgTree c = t;
+                try
+                {
+                    if (cst)
+                        c.exchange(NodeId(n), Node{True{}});
+                    else
+                        c.exchange(NodeId(n), Node{False{}});
+                }
+                catch (std::exception const&)
+                {
+                    S.hit(t_repl_threw_unsat);
+                    continue;
+                }
+                Info J = analyze(c, lab);
+                if (!J.ok)
+                    continue;
+                for (size_t i = 0; i < N; ++i)
+                {
+                    std::string s;
+                    try
+                    {
+                        s = build_infix_string(c, NodeId(i));
+                    }
+                    catch (std::exception const& e)
+                    {
+                        violation("string:throws-on-exchanged-tree", cid,
+                                  fmt("exchange(%zu,%s) on %s, node %zu: %s", n,
+                                      cst ? "True" : "False", tree_str(t).c_str(), i, e.what()));
+                        break;
+                    }
+                    ++S.ctr[c_op_string];
+                    ++S.ctr[c_transitions];
+                    ++S.ctr[c_evaluations];
+                    StrParser P{s, lab};
+                    TT got = P.expr();
+                    if (P.ok && P.p != s.size())
+                        P.ok = false;
+                    if (!P.ok)
+                        violation("string:unparsable", cid,
+                                  fmt("[after exchange(%zu,%s)] node %zu of %s: build_infix_string "
+                                      "gave \"%s\"",
+                                      n, cst ? "True" : "False", i, tree_str(c).c_str(), s.c_str()));
+                    else if ((got ^ J.val[i]) & mask)
+                        violation("string:expression-differs", cid,
+                                  fmt("[after exchange(%zu,%s)] node %zu of %s: \"%s\" has table %s, "
+                                      "node has %s",
+                                      n, cst ? "True" : "False", i, tree_str(c).c_str(), s.c_str(),
+                                      tt_str(got, nsurf).c_str(), tt_str(J.val[i], nsurf).c_str()));
+                }
+            }
+    }
+
+    //-----------------------------------------------------------------------//
     void check_replace(CsgTree const& t, Info const& I, int nsurf, std::string const& cid)
     {
         size_t const N = t.size();
@@ -1683,6 +1747,7 @@ struct Explorer
             // only operations that look at surface ids; the rest is covered under labelling 0)
             C.check_simplify(st.tree, I, st.nsurf, mask, st.path, "built", true);
             C.check_replace(st.tree, I, st.nsurf, st.path);
+            C.check_exchange_strings(st.tree, st.nsurf, st.path);
             C.check_demorgan(st.tree, I, st.nsurf, st.path, !leaf || pairs_at_leaves);
         }
         if (st.depth >= 2)
